@@ -83,6 +83,9 @@ class TreeMod(roundtrip.RTMod):
         p = e[4]
         if p is not None:
             pe = h[p]
+            if i in pe[3]:
+                # rowan keeps the index cell of a detached node at its last value
+                h[-i] = (-i, "S", pe[3].index(i), (), None, False)
             h[p] = (pe[0], pe[1], pe[2], tuple(c for c in pe[3] if c != i), pe[4], pe[5])
             h[i] = (e[0], e[1], e[2], e[3], None, e[5])
 
@@ -425,7 +428,8 @@ class TreeMod(roundtrip.RTMod):
             if m == "index" and "rowan::api" in c:
                 p = e[4]
                 if p is None:
-                    return [(OK, hirai.mkint(0), st)]
+                    stale = h.get(-e[0])
+                    return [(OK, hirai.mkint(stale[2] if stale else 0), st)]
                 return [(OK, hirai.mkint(h[p][3].index(e[0])), st)]
             if m == "parent" and "rowan::api" in c:
                 return [(OK, some(("abs", "nref", e[4])) if e[4] is not None else none(), st)]
@@ -545,6 +549,7 @@ class TreeMod(roundtrip.RTMod):
                 for r in removed:
                     re_ = h[r]
                     h[r] = (re_[0], re_[1], re_[2], re_[3], None, re_[5])
+                    h[-r] = (-r, "S", lo, (), None, False)       # each is detached in turn: its index cell ends at `lo`
                 ch[lo:hi] = []
                 h[e[0]] = (e[0], e[1], e[2], tuple(ch), e[4], e[5])
                 for k, i in enumerate(ids):
